@@ -65,6 +65,8 @@ def main(ctx, replay=None):
         for _, mode, ts, ps, req, vs, near in picks:
             d = Path(tempfile.mkdtemp(dir=tmp))
             t0, p0 = (0.0, 0.0) if rng.random() < 0.5 else (300.0, 10.0)      # grids starting at exactly 0 K / 0 GPa half of the time
+            if rng.random() < 0.2:
+                p0 = -20.0                                                     # tables of a run with a negative P_MIN (tensile side), negative requests
             # temperature unit: whole Kelvin (step 100 K per model unit) or fractional grids (DT = 25, 0.5 K); T_MIN = 0.5 K
             tu = float(rng.choice([50.0, 50.0, 12.5, 0.25]))
             if tu != 50.0 and t0 != 0.0:
